@@ -35,6 +35,8 @@ type SendScenario struct {
 	// DialFail: the n-th call of the dial function (1-based) fails without opening a connection
 	// (the client then tries its fallback port, if it has one).
 	DialFail int `json:"dialFail,omitempty"`
+	// DialBlocks: the dial function itself blocks until its context is done.
+	DialBlocks bool `json:"dialBlocks,omitempty"`
 	// CtxMs: when > 0 the caller's context carries a deadline of its own, CtxMs from the start
 	// of the call (DialWithContext / DialAndSendWithContext); otherwise context.Background().
 	CtxMs  int        `json:"ctxMs,omitempty"`
@@ -123,7 +125,7 @@ func execSendHook(t *testing.T, sc *SendScenario, logger mlog.Logger, hook func(
 		pol.Kind = "random"
 	}
 	run.Res = RunSim(t, sc.Sched, pol, 0, 2*time.Hour, func(k *sim.Kernel) (func(), func()) {
-		env := &NetEnv{K: k, Srv: refsmtpd.New(k, sc.Server, TLSMat), Faults: []sim.ConnFaults{sc.Conn}, Host: sc.Client.host(), DialFail: sc.DialFail}
+		env := &NetEnv{K: k, Srv: refsmtpd.New(k, sc.Server, TLSMat), Faults: []sim.ConnFaults{sc.Conn}, Host: sc.Client.host(), DialFail: sc.DialFail, DialBlocks: sc.DialBlocks}
 		run.Env = env
 		if hook != nil {
 			hook(env)
